@@ -25,6 +25,7 @@ import (
 
 	"verifsim/core"
 	"verifsim/keypool"
+	"verifsim/seams"
 )
 
 var crcTable = crc32.MakeTable(crc32.Castagnoli)
@@ -70,6 +71,9 @@ type SimKMS struct {
 	// transit (the service signs what it received and reports the mismatch).
 	SignFault int
 	LastSign  *kmspb.AsymmetricSignResponse
+	// Plan, when set, numbers every RPC as a seam call of the run's fault plan (world A: err-before,
+	// err-after = lost acknowledgement, crash-after).
+	Plan *seams.FaultPlan
 	// Bound on RPCs: exceeding it ends the run with a non-termination verdict.
 	Bound    int
 	Exceeded func()
@@ -248,15 +252,14 @@ func parseToken(tok string) (int, error) {
 // ---- KeyManagementServiceClient ----
 
 func (s *SimKMS) CreateKeyRing(_ context.Context, req *kmspb.CreateKeyRingRequest, _ ...grpc.CallOption) (*kmspb.KeyRing, error) {
-	if err := s.enter("CreateKeyRing", req.GetKeyRingId()); err != nil {
-		return nil, err
-	}
-	name := req.GetParent() + "/keyRings/" + req.GetKeyRingId()
-	if s.Rings[name] {
-		return nil, status.Errorf(codes.AlreadyExists, "key ring %s exists", name)
-	}
-	s.Rings[name] = true
-	return &kmspb.KeyRing{Name: name}, nil
+	return rpc(s, "CreateKeyRing", req.GetKeyRingId(), true, func() (*kmspb.KeyRing, error) {
+		name := req.GetParent() + "/keyRings/" + req.GetKeyRingId()
+		if s.Rings[name] {
+			return nil, status.Errorf(codes.AlreadyExists, "key ring %s exists", name)
+		}
+		s.Rings[name] = true
+		return &kmspb.KeyRing{Name: name}, nil
+	})
 }
 
 func (s *SimKMS) newVersion(k *simKey) *simVersion {
@@ -267,157 +270,149 @@ func (s *SimKMS) newVersion(k *simKey) *simVersion {
 }
 
 func (s *SimKMS) CreateCryptoKey(_ context.Context, req *kmspb.CreateCryptoKeyRequest, _ ...grpc.CallOption) (*kmspb.CryptoKey, error) {
-	if err := s.enter("CreateCryptoKey", req.GetCryptoKeyId()); err != nil {
-		return nil, err
-	}
-	name := req.GetParent() + "/cryptoKeys/" + req.GetCryptoKeyId()
-	if s.key(name) != nil {
-		return nil, status.Errorf(codes.AlreadyExists, "crypto key %s exists", name)
-	}
-	k := &simKey{name: name}
-	s.Keys = append(s.Keys, k)
-	if !req.GetSkipInitialVersionCreation() {
-		s.newVersion(k)
-	}
-	return &kmspb.CryptoKey{Name: name, Purpose: req.GetCryptoKey().GetPurpose()}, nil
+	return rpc(s, "CreateCryptoKey", req.GetCryptoKeyId(), true, func() (*kmspb.CryptoKey, error) {
+		name := req.GetParent() + "/cryptoKeys/" + req.GetCryptoKeyId()
+		if s.key(name) != nil {
+			return nil, status.Errorf(codes.AlreadyExists, "crypto key %s exists", name)
+		}
+		k := &simKey{name: name}
+		s.Keys = append(s.Keys, k)
+		if !req.GetSkipInitialVersionCreation() {
+			s.newVersion(k)
+		}
+		return &kmspb.CryptoKey{Name: name, Purpose: req.GetCryptoKey().GetPurpose()}, nil
+	})
 }
 
 func (s *SimKMS) CreateCryptoKeyVersion(_ context.Context, req *kmspb.CreateCryptoKeyVersionRequest, _ ...grpc.CallOption) (*kmspb.CryptoKeyVersion, error) {
-	if err := s.enter("CreateCryptoKeyVersion", short(req.GetParent())); err != nil {
-		return nil, err
-	}
-	k := s.key(req.GetParent())
-	if k == nil {
-		return nil, status.Errorf(codes.NotFound, "crypto key %s not found", req.GetParent())
-	}
-	return s.newVersion(k).proto(), nil
+	return rpc(s, "CreateCryptoKeyVersion", short(req.GetParent()), true, func() (*kmspb.CryptoKeyVersion, error) {
+		k := s.key(req.GetParent())
+		if k == nil {
+			return nil, status.Errorf(codes.NotFound, "crypto key %s not found", req.GetParent())
+		}
+		return s.newVersion(k).proto(), nil
+	})
 }
 
 func (s *SimKMS) GetCryptoKeyVersion(_ context.Context, req *kmspb.GetCryptoKeyVersionRequest, _ ...grpc.CallOption) (*kmspb.CryptoKeyVersion, error) {
 	s.Polls++
-	if err := s.enter("GetCryptoKeyVersion", short(req.GetName())); err != nil {
-		return nil, err
-	}
-	v := s.version(req.GetName())
-	if v == nil {
-		return nil, status.Errorf(codes.NotFound, "version %s not found", req.GetName())
-	}
-	return v.proto(), nil
+	return rpc(s, "GetCryptoKeyVersion", short(req.GetName()), false, func() (*kmspb.CryptoKeyVersion, error) {
+		v := s.version(req.GetName())
+		if v == nil {
+			return nil, status.Errorf(codes.NotFound, "version %s not found", req.GetName())
+		}
+		return v.proto(), nil
+	})
 }
 
 func (s *SimKMS) ListCryptoKeyVersions(_ context.Context, req *kmspb.ListCryptoKeyVersionsRequest, _ ...grpc.CallOption) (*kmspb.ListCryptoKeyVersionsResponse, error) {
-	if err := s.enter("ListCryptoKeyVersions", short(req.GetParent())+" token="+req.GetPageToken()); err != nil {
-		return nil, err
-	}
-	k := s.key(req.GetParent())
-	if k == nil {
-		return nil, status.Errorf(codes.NotFound, "crypto key %s not found", req.GetParent())
-	}
-	pos, err := parseToken(req.GetPageToken())
-	if err != nil {
-		return nil, err
-	}
-	n, next := s.page(len(k.versions), pos, int(req.GetPageSize()))
-	resp := &kmspb.ListCryptoKeyVersionsResponse{NextPageToken: next, TotalSize: int32(len(k.versions))}
-	for _, v := range k.versions[min(pos, len(k.versions)):min(pos+n, len(k.versions))] {
-		resp.CryptoKeyVersions = append(resp.CryptoKeyVersions, v.proto())
-	}
-	return resp, nil
+	return rpc(s, "ListCryptoKeyVersions", short(req.GetParent())+" token="+req.GetPageToken(), false, func() (*kmspb.ListCryptoKeyVersionsResponse, error) {
+		k := s.key(req.GetParent())
+		if k == nil {
+			return nil, status.Errorf(codes.NotFound, "crypto key %s not found", req.GetParent())
+		}
+		pos, err := parseToken(req.GetPageToken())
+		if err != nil {
+			return nil, err
+		}
+		n, next := s.page(len(k.versions), pos, int(req.GetPageSize()))
+		resp := &kmspb.ListCryptoKeyVersionsResponse{NextPageToken: next, TotalSize: int32(len(k.versions))}
+		for _, v := range k.versions[min(pos, len(k.versions)):min(pos+n, len(k.versions))] {
+			resp.CryptoKeyVersions = append(resp.CryptoKeyVersions, v.proto())
+		}
+		return resp, nil
+	})
 }
 
 func (s *SimKMS) ListCryptoKeys(_ context.Context, req *kmspb.ListCryptoKeysRequest, _ ...grpc.CallOption) (*kmspb.ListCryptoKeysResponse, error) {
-	if err := s.enter("ListCryptoKeys", "token="+req.GetPageToken()); err != nil {
-		return nil, err
-	}
-	var keys []*simKey
-	for _, k := range s.Keys {
-		if strings.HasPrefix(k.name, req.GetParent()+"/") {
-			keys = append(keys, k)
+	return rpc(s, "ListCryptoKeys", "token="+req.GetPageToken(), false, func() (*kmspb.ListCryptoKeysResponse, error) {
+		var keys []*simKey
+		for _, k := range s.Keys {
+			if strings.HasPrefix(k.name, req.GetParent()+"/") {
+				keys = append(keys, k)
+			}
 		}
-	}
-	pos, err := parseToken(req.GetPageToken())
-	if err != nil {
-		return nil, err
-	}
-	n, next := s.page(len(keys), pos, int(req.GetPageSize()))
-	resp := &kmspb.ListCryptoKeysResponse{NextPageToken: next, TotalSize: int32(len(keys))}
-	for _, k := range keys[min(pos, len(keys)):min(pos+n, len(keys))] {
-		resp.CryptoKeys = append(resp.CryptoKeys, &kmspb.CryptoKey{Name: k.name})
-	}
-	return resp, nil
+		pos, err := parseToken(req.GetPageToken())
+		if err != nil {
+			return nil, err
+		}
+		n, next := s.page(len(keys), pos, int(req.GetPageSize()))
+		resp := &kmspb.ListCryptoKeysResponse{NextPageToken: next, TotalSize: int32(len(keys))}
+		for _, k := range keys[min(pos, len(keys)):min(pos+n, len(keys))] {
+			resp.CryptoKeys = append(resp.CryptoKeys, &kmspb.CryptoKey{Name: k.name})
+		}
+		return resp, nil
+	})
 }
 
 func (s *SimKMS) DestroyCryptoKeyVersion(_ context.Context, req *kmspb.DestroyCryptoKeyVersionRequest, _ ...grpc.CallOption) (*kmspb.CryptoKeyVersion, error) {
-	if err := s.enter("DestroyCryptoKeyVersion", short(req.GetName())); err != nil {
-		return nil, err
-	}
-	v := s.version(req.GetName())
-	if v == nil {
-		return nil, status.Errorf(codes.NotFound, "version %s not found", req.GetName())
-	}
-	if st := v.StateNow(); st != kmspb.CryptoKeyVersion_ENABLED && st != kmspb.CryptoKeyVersion_DISABLED {
-		return nil, status.Errorf(codes.FailedPrecondition, "version %s is %v", req.GetName(), st)
-	}
-	v.destroys++
-	return v.proto(), nil
+	return rpc(s, "DestroyCryptoKeyVersion", short(req.GetName()), true, func() (*kmspb.CryptoKeyVersion, error) {
+		v := s.version(req.GetName())
+		if v == nil {
+			return nil, status.Errorf(codes.NotFound, "version %s not found", req.GetName())
+		}
+		if st := v.StateNow(); st != kmspb.CryptoKeyVersion_ENABLED && st != kmspb.CryptoKeyVersion_DISABLED {
+			return nil, status.Errorf(codes.FailedPrecondition, "version %s is %v", req.GetName(), st)
+		}
+		v.destroys++
+		return v.proto(), nil
+	})
 }
 
 func (s *SimKMS) GetPublicKey(_ context.Context, req *kmspb.GetPublicKeyRequest, _ ...grpc.CallOption) (*kmspb.PublicKey, error) {
-	if err := s.enter("GetPublicKey", short(req.GetName())); err != nil {
-		return nil, err
-	}
-	v := s.version(req.GetName())
-	if v == nil {
-		return nil, status.Errorf(codes.NotFound, "version %s not found", req.GetName())
-	}
-	if v.StateNow() != kmspb.CryptoKeyVersion_ENABLED {
-		return nil, status.Errorf(codes.FailedPrecondition, "version %s is %v", req.GetName(), v.StateNow())
-	}
-	der, _ := x509.MarshalPKIXPublicKey(&keypool.Pool()[v.keyIdx].PublicKey)
-	return &kmspb.PublicKey{Pem: string(pem.EncodeToMemory(&pem.Block{Type: "PUBLIC KEY", Bytes: der})), Name: v.name}, nil
+	return rpc(s, "GetPublicKey", short(req.GetName()), false, func() (*kmspb.PublicKey, error) {
+		v := s.version(req.GetName())
+		if v == nil {
+			return nil, status.Errorf(codes.NotFound, "version %s not found", req.GetName())
+		}
+		if v.StateNow() != kmspb.CryptoKeyVersion_ENABLED {
+			return nil, status.Errorf(codes.FailedPrecondition, "version %s is %v", req.GetName(), v.StateNow())
+		}
+		der, _ := x509.MarshalPKIXPublicKey(&keypool.Pool()[v.keyIdx].PublicKey)
+		return &kmspb.PublicKey{Pem: string(pem.EncodeToMemory(&pem.Block{Type: "PUBLIC KEY", Bytes: der})), Name: v.name}, nil
+	})
 }
 
 func (s *SimKMS) AsymmetricSign(_ context.Context, req *kmspb.AsymmetricSignRequest, _ ...grpc.CallOption) (*kmspb.AsymmetricSignResponse, error) {
-	if err := s.enter("AsymmetricSign", short(req.GetName())); err != nil {
-		return nil, err
-	}
-	v := s.version(req.GetName())
-	if v == nil {
-		return nil, status.Errorf(codes.NotFound, "version %s not found", req.GetName())
-	}
-	if v.StateNow() != kmspb.CryptoKeyVersion_ENABLED {
-		return nil, status.Errorf(codes.FailedPrecondition, "version %s is %v", req.GetName(), v.StateNow())
-	}
-	digest := append([]byte(nil), req.GetDigest().GetSha256()...)
-	if s.SignFault == 5 && len(digest) > 0 {
-		digest[0] ^= 1 // corrupted in transit: the service sees other bytes than the client sent
-	}
-	if len(digest) != sha256.Size {
-		return nil, status.Errorf(codes.InvalidArgument, "digest must be %d bytes", sha256.Size)
-	}
-	sig, err := rsa.SignPSS(core.NewDetReader(uint64(s.Calls)), keypool.Pool()[v.keyIdx], crypto.SHA256, digest, &rsa.PSSOptions{SaltLength: rsa.PSSSaltLengthEqualsHash})
-	if err != nil {
-		return nil, status.Errorf(codes.Internal, "sign: %v", err)
-	}
-	resp := &kmspb.AsymmetricSignResponse{Name: v.name, Signature: sig, SignatureCrc32C: wrapperspb.Int64(crc(sig)),
-		VerifiedDigestCrc32C: req.GetDigestCrc32C() != nil && req.GetDigestCrc32C().GetValue() == crc(digest),
-		VerifiedDataCrc32C:   req.GetDataCrc32C() != nil && req.GetDataCrc32C().GetValue() == crc(req.GetData())}
-	switch s.SignFault {
-	case 1:
-		resp.Signature = append([]byte(nil), sig...)
-		resp.Signature[s.R.Intn(len(sig), "sig-byte")] ^= 1 << s.R.Intn(8, "sig-bit")
-	case 2:
-		resp.SignatureCrc32C = wrapperspb.Int64(crc(sig) ^ (1 << s.R.Intn(32, "crc-bit")))
-	case 3:
-		resp.VerifiedDataCrc32C = false
-	case 4:
-		resp.VerifiedDigestCrc32C = false
-	}
-	if s.SignFault != 0 {
-		s.R.Fault("kms-integrity", "kind %d", s.SignFault)
-	}
-	s.LastSign = resp
-	return resp, nil
+	return rpc(s, "AsymmetricSign", short(req.GetName()), false, func() (*kmspb.AsymmetricSignResponse, error) {
+		v := s.version(req.GetName())
+		if v == nil {
+			return nil, status.Errorf(codes.NotFound, "version %s not found", req.GetName())
+		}
+		if v.StateNow() != kmspb.CryptoKeyVersion_ENABLED {
+			return nil, status.Errorf(codes.FailedPrecondition, "version %s is %v", req.GetName(), v.StateNow())
+		}
+		digest := append([]byte(nil), req.GetDigest().GetSha256()...)
+		if s.SignFault == 5 && len(digest) > 0 {
+			digest[0] ^= 1 // corrupted in transit: the service sees other bytes than the client sent
+		}
+		if len(digest) != sha256.Size {
+			return nil, status.Errorf(codes.InvalidArgument, "digest must be %d bytes", sha256.Size)
+		}
+		sig, err := rsa.SignPSS(core.NewDetReader(uint64(s.Calls)), keypool.Pool()[v.keyIdx], crypto.SHA256, digest, &rsa.PSSOptions{SaltLength: rsa.PSSSaltLengthEqualsHash})
+		if err != nil {
+			return nil, status.Errorf(codes.Internal, "sign: %v", err)
+		}
+		resp := &kmspb.AsymmetricSignResponse{Name: v.name, Signature: sig, SignatureCrc32C: wrapperspb.Int64(crc(sig)),
+			VerifiedDigestCrc32C: req.GetDigestCrc32C() != nil && req.GetDigestCrc32C().GetValue() == crc(digest),
+			VerifiedDataCrc32C:   req.GetDataCrc32C() != nil && req.GetDataCrc32C().GetValue() == crc(req.GetData())}
+		switch s.SignFault {
+		case 1:
+			resp.Signature = append([]byte(nil), sig...)
+			resp.Signature[s.R.Intn(len(sig), "sig-byte")] ^= 1 << s.R.Intn(8, "sig-bit")
+		case 2:
+			resp.SignatureCrc32C = wrapperspb.Int64(crc(sig) ^ (1 << s.R.Intn(32, "crc-bit")))
+		case 3:
+			resp.VerifiedDataCrc32C = false
+		case 4:
+			resp.VerifiedDigestCrc32C = false
+		}
+		if s.SignFault != 0 {
+			s.R.Fault("kms-integrity", "kind %d", s.SignFault)
+		}
+		s.LastSign = resp
+		return resp, nil
+	})
 }
 
 // SimIAM is the IAM policy client double.
@@ -434,3 +429,42 @@ func (i *SimIAM) SetIamPolicy(_ context.Context, req *iampb.SetIamPolicyRequest,
 }
 
 var _ = fmt.Sprint
+
+// rpc runs one RPC under the service's failure injection: the C20 world's FailAt index and, when
+// a fault plan is attached, the plan's outcome for the call.
+func rpc[T any](s *SimKMS, name, arg string, mutating bool, f func() (T, error)) (T, error) {
+	var zero T
+	if err := s.enter(name, arg); err != nil {
+		return zero, err
+	}
+	if s.Plan == nil {
+		return f()
+	}
+	site := "kms." + name
+	switch s.Plan.Next(site, mutating) {
+	case seams.ErrBefore:
+		return zero, status.Errorf(codes.Unavailable, "simkms: %v", seams.Err(site))
+	case seams.ErrAfter:
+		if _, err := f(); err != nil {
+			return zero, err
+		}
+		return zero, status.Errorf(codes.Unavailable, "simkms: %v", seams.Err(site))
+	case seams.CrashAfter:
+		f()
+		panic(seams.Crash{At: site})
+	}
+	return f()
+}
+
+// LiveVersionNames lists the full names of every ENABLED version, sorted by creation.
+func (s *SimKMS) LiveVersionNames() []string {
+	var out []string
+	for _, k := range s.Keys {
+		for _, v := range k.versions {
+			if v.StateNow() == kmspb.CryptoKeyVersion_ENABLED {
+				out = append(out, v.name)
+			}
+		}
+	}
+	return out
+}
